@@ -146,10 +146,11 @@ Answer(rej, as, sizes) ==
 ExpectSized(ts, sizes) == Answer(Expect(ts).rejected, Expect(ts).args, sizes)
 \* Init followed by Emit(ts[1]) ... Emit(ts[n]) as ONE macro step (a whole format string per step;
 \* invariant FoldsAgree of mc/MC_FormatString: the single steps reach exactly this state)
-Run(ts) == /\ tokens' = ts
-           /\ text' = Text(ts)
-           /\ args' = Expect(ts).args
-           /\ rejected' = Expect(ts).rejected
+Run(ts) == \E e \in {Expect(ts)} :
+             /\ tokens' = ts
+             /\ text' = Text(ts)
+             /\ args' = e.args
+             /\ rejected' = e.rejected
 
 (***************************************************************************)
 (* Scan: an independent reader of format TEXT, left to right.  At a '%':   *)
